@@ -270,6 +270,9 @@ def gen_case(rng):
             j = rng.choice(others)
             rels.insert(rng.randint(0, len(rels)), (j, rng.choice(["<", ">", "="]), ("n", repr(rng.randint(-8, 8) / 2.0))))
     rels = [(i, c, T.deint(t)) for (i, c, t) in rels]
+    if rich:
+        # numpy's floor/ceil/abs keep python ints as integers (and refuse negative integer powers): rich terms use float literals
+        rels = [(i, c, T.floatify(t)) for (i, c, t) in rels]
     if kind == "feed":
         # a variable may hold a python int after `x0 = 3`; feeding it on (-x0, x0*0) would use python's int arithmetic:
         # keep fed systems in floats
@@ -295,8 +298,9 @@ def gen_case(rng):
             join = "and_"; ctype = rng.choice([None, None, "outer", "inner"])
         elif m < 0.46:
             join = "or_"; ctype = rng.choice([None, None, "outer"])
+    selfcheck = rng.choices([None, "reload", "threads"], [94, 2, 4])[0]
     return {"kind": kind, "regime": regime, "n": n, "scheme": scheme, "locals": locs, "rels": rels, "x": x,
-            "rich": rich, "consts": consts, "ctype": ctype, "join": join}
+            "rich": rich, "consts": consts, "ctype": ctype, "join": join, "selfcheck": selfcheck}
 
 
 def finalize_point(rng, case):
@@ -411,6 +415,36 @@ def run_impl(case):
             obs["y_again"] = [float(v) for v in y2]
         except Exception as exc:
             obs["y_again"] = "%s: %s" % (type(exc).__name__, exc)
+    # self-contained: the function keeps working after mystic.symbolic is re-imported, and when called from several threads
+    if "y" in obs and case.get("join") is None and case.get("selfcheck"):
+        if case["selfcheck"] == "reload":
+            try:
+                import importlib
+                importlib.reload(S)
+                S.generate_solvers("x0 = 1.", nvars=1)
+                with warnings.catch_warnings():
+                    warnings.simplefilter("ignore")
+                    obs["y_reload"] = [float(v) for v in cf(list(case["x"]))]
+            except Exception as exc:
+                obs["y_reload"] = "%s: %s" % (type(exc).__name__, exc)
+        else:
+            import threading
+            res = [None] * 4
+
+            def work(q):
+                try:
+                    with warnings.catch_warnings():
+                        warnings.simplefilter("ignore")
+                        for _ in range(25):
+                            z = [float(v) for v in cf(list(case["x"]))]
+                            if res[q] is None or not all(num_eq(a, b) for a, b in zip(z, res[q])):
+                                res[q] = z if res[q] is None else "differs between calls: %r / %r" % (res[q], z)
+                except Exception as exc:
+                    res[q] = "%s: %s" % (type(exc).__name__, exc)
+            ths = [threading.Thread(target=work, args=(q,)) for q in range(4)]
+            [t.start() for t in ths]; [t.join() for t in ths]
+            bad = [r for r in res if isinstance(r, str) or r is None or not all(num_eq(a, b) for a, b in zip(r, obs["y"]))]
+            obs["y_threads"] = bad[0] if bad else res[0]
     return obs
 
 
@@ -485,19 +519,77 @@ def num_eq(a, b):
     return a == b or (a != a and b != b)
 
 
-def monitor(case, obs):
+def _safe_eval(term, v, consts):
+    with warnings.catch_warnings():
+        warnings.simplefilter("ignore")
+        return float(T.py_eval(term, v, consts))
+
+
+def rel_ok(sym, cmp, yi, r1, t):
+    """does `y_i <cmp> r1` hold (strictly for strict comparators unless rounding absorbs the tolerance term)"""
+    if sym == "lt":
+        return (yi <= r1) if not (r1 - t < r1) else (yi < r1)
+    if sym == "gt":
+        return (yi >= r1) if not (r1 + t > r1) else (yi > r1)
+    if sym == "ne":
+        return True if (r1 + t * 1.1 == r1) else (yi != r1)
+    return T.py_holds(cmp, yi, r1)
+
+
+def monitor_fixed(case, obs, info):
+    """every solver that leaves the output unchanged has its relation satisfied there (C13.fixed_point_margin on the real
+    code; no independence needed), and with join=or_ at least one relation holds at the output"""
+    out = []
+    y = obs["y"]; rels = case["rels"]; consts = case.get("consts") or {}
+    tol = (case["locals"] or {}).get("tol", 1e-15); rel = (case["locals"] or {}).get("rel", 1e-15)
+    if not all(math.isfinite(v) for v in y) or not info or info.get("order") is None:
+        return out
+    fx = obs.get("fixed") or []
+    order = info["order"]
+    holds_any = False; usable = True
+    for pos, k in enumerate(order):
+        i, cmp, term = rels[k]
+        try:
+            r1 = _safe_eval(term, y, consts)
+        except (ZeroDivisionError, OverflowError, TypeError, ValueError):
+            usable = False; continue
+        if not math.isfinite(r1):
+            usable = False; continue
+        sym = T.CMP_SYM[cmp]
+        ok = rel_ok(sym, cmp, y[i], r1, tolf(r1, tol, rel))
+        holds_any = holds_any or ok
+        if pos < len(fx) and fx[pos] is True and not ok:
+            out.append(("solver/fixed-point-violates/%s" % sym, "the solver %r leaves %r unchanged although x%d %s %r is false there" %
+                        (obs["docs"][pos], y, i, cmp, r1)))
+    if case.get("join") == "or_" and usable and not obs.get("drew") and not holds_any and all(math.isfinite(v) for v in case["x"]):
+        out.append(("join-or/none-holds", "generate_constraint(join=or_) returned %r for x=%r, where no relation of %r holds" %
+                    (y, case["x"], obs["text"])))
+    return out
+
+
+def monitor(case, obs, info=None):
     """the property's clauses on the implementation's output; returns [(class_key, what)]"""
     out = []
     if "y" not in obs:
         return out
-    kind = case["kind"]
-    if kind in ("feed", "selfref"):
-        return out                              # outside the property's hypotheses: correspondence only
+    kind = case["kind"]; consts = case.get("consts") or {}
     x0 = case["x"]; y = obs["y"]; rels = case["rels"]
     tol = (case["locals"] or {}).get("tol", 1e-15); rel = (case["locals"] or {}).get("rel", 1e-15)
     ya = obs.get("y_again")
     if ya is not None and (isinstance(ya, str) or len(ya) != len(y) or any(not (num_eq(a, b) or (a != a and b != b)) for a, b in zip(ya, y))):
-        out.append(("solver/changes-after-later-compilation", "the generated constraints function returned %r, and after another relation was compiled (other tol/rel/locals) it returns %r for the same input %r" % (y, ya, x0)))
+        out.append(("solver/changes-after-later-compilation", "the generated constraints function returned %r, and after another relation was compiled (other tol/rel/locals/variables) it returns %r for the same input %r" % (y, ya, x0)))
+    for key in ("y_reload", "y_threads"):
+        yr = obs.get(key)
+        if yr is not None and (isinstance(yr, str) or len(yr) != len(y) or any(not num_eq(a, b) for a, b in zip(yr, y))):
+            out.append(("solver/not-self-contained/%s" % key[2:], "the generated constraints function returned %r for %r, but %r %s" %
+                        (y, x0, yr, "after mystic.symbolic was re-imported" if key == "y_reload" else "when called from several threads at once")))
+    out.extend(monitor_fixed(case, obs, info))
+    if kind in ("feed", "selfref") or case.get("join") == "or_" or obs.get("drew"):
+        return out                              # outside the hypotheses of the all-relations clause
+    if case.get("join") == "and_" and kind == "neqmix":
+        return out
+    if kind == "neqmix" and case.get("ctype") is not None:
+        return out                              # several lines on one variable: only the parser's own order is claimed
     lhs = {r[0] for r in rels}
     # frame
     if len(y) != len(x0) or any(not num_eq(y[j], x0[j]) for j in range(len(x0)) if j not in lhs):
@@ -509,17 +601,20 @@ def monitor(case, obs):
     for (i, cmp, term) in rels:
         if cmp == "!=":
             try:
-                forb.setdefault(i, []).append(float(T.py_eval(term, x0)))
-            except (ZeroDivisionError, OverflowError):
+                forb.setdefault(i, []).append(_safe_eval(term, x0, consts))
+            except (ZeroDivisionError, OverflowError, TypeError, ValueError):
                 pass
     all_margin = True
     for (i, cmp, term) in rels:
         try:
-            r0 = float(T.py_eval(term, x0)); r1 = float(T.py_eval(term, y))
-        except (ZeroDivisionError, OverflowError):
+            r0 = _safe_eval(term, x0, consts); r1 = _safe_eval(term, y, consts)
+        except (ZeroDivisionError, OverflowError, TypeError, ValueError):
             return out
         sym = T.CMP_SYM[cmp]
-        if math.isinf(r0) or math.isinf(r1) or r0 != r0:
+        if r0 != r0 or r1 != r1:
+            all_margin = False
+            continue                             # the right-hand side is not a number (sqrt / log outside their domain)
+        if math.isinf(r0) or math.isinf(r1):
             if (sym == "gt" and r1 == math.inf) or (sym == "lt" and r1 == -math.inf):
                 all_margin = False
                 continue                         # unsatisfiable in the extended reals
@@ -532,19 +627,7 @@ def monitor(case, obs):
             continue
         t = tolf(r1, tol, rel)
         # clause 1: the relation holds on the output (strictly for strict comparators, unless rounding absorbs the tolerance)
-        if sym == "lt":
-            absorbed = not (r1 - t < r1)
-            ok = (y[i] <= r1) if absorbed else (y[i] < r1)
-        elif sym == "gt":
-            absorbed = not (r1 + t > r1)
-            ok = (y[i] >= r1) if absorbed else (y[i] > r1)
-        elif sym == "ne":
-            absorbed = (r1 + t * 1.1 == r1)
-            ok = True if absorbed else (y[i] != r1)
-        else:
-            absorbed = False
-            ok = T.py_holds(cmp, y[i], r1)
-        if not ok:
+        if not rel_ok(sym, cmp, y[i], r1, t):
             out.append(("solver/holds/%s" % sym, "after the constraint, x%d %s %r is false: x=%r -> %r (tol=%r rel=%r)" % (i, cmp, r1, x0, y, tol, rel)))
         # clause 3: identity on feasible input
         t0 = tolf(r0, tol, rel)
@@ -683,6 +766,10 @@ def bump(h, k, n=1):
     h[k] = h.get(k, 0) + n
 
 
+def _uses(t, op):
+    return isinstance(t, tuple) and (t[0] == op or any(_uses(u, op) for u in t[1:]))
+
+
 def check_case(case, obs, rep, info, hist):
     """compare model reply and implementation; returns list of Findings"""
     fs = []
@@ -703,9 +790,53 @@ def check_case(case, obs, rep, info, hist):
         fs.append(Finding("correspondence", "parser/emission-order", "statements emitted in order %r, model expects %r" %
                           (info["order"], info["expected_order"]), cdesc))
     mres = r[1]["res"]
+    mode = info.get("mode", "default")
+
+    def close(my, iy):
+        """inexact functions (exp/log/sin/cos: numpy's kernels vs libm; ** : C pow): toleranced, separately counted"""
+        return len(my) == len(iy) and all(num_eq(a, b) or (math.isfinite(a) and math.isfinite(b) and abs(a - b) <= 1e-6 * (1 + abs(a)))
+                                          or (not math.isfinite(a) and not math.isfinite(b)) for a, b in zip(my, iy))
+
+    def compare(my):
+        if "y" not in obs:
+            if obs.get("raises") == "overflow" and any(not math.isfinite(v) for v in my):
+                bump(hist, "res:overflow-vs-inf")
+                return
+            fs.append(Finding("correspondence", "chain/diverges", "implementation raised %r, model gives %r" % (obs.get("raises"), my), cdesc))
+        elif same_vec(my, obs["y"]):
+            bump(hist, "cmp:bit-exact" + (":inexact-fn" if info.get("inexact") else ""))
+        elif info.get("inexact") and close(my, obs["y"]):
+            bump(hist, "cmp:toleranced-inexact-fn")
+        else:
+            fs.append(Finding("correspondence", "chain/diverges" if mode in ("default", "ctype") else "join/diverges",
+                              "result model=%r impl=%r (mode %s)" % (my, obs["y"], mode), cdesc))
+    if mode == "ctype" and mres == "value":
+        # the statements must run in the order the couplers prescribe (model `order`, head = applied last)
+        want = [codes_i for codes_i in reversed([int(v) for v in r[1].get("order", [])])]
+        have = [T.parse_assign(obs["docs"][k], case.get("consts") or {})[0] for k in info["run_order"]]
+        if want != have:
+            fs.append(Finding("correspondence", "compose/order", "model applies targets %r, the couplers prescribe %r" % (want, have), cdesc))
+    if mode in ("and_", "or_"):
+        bump(hist, "join:%s:%s" % (mode, mres))
+        drew = obs.get("drew", 0)
+        nan = any(v != v for v in obs.get("y", [])) or any(v != v for v in case["x"])
+        if nan:
+            bump(hist, "join:nan-skipped")         # python compares list items by identity first: nan == nan there
+        elif mres == "stuck":
+            if not drew:
+                fs.append(Finding("correspondence", "join/draws", "the model needs a random draw, the implementation drew none (result %r)" % (obs.get("y"),), cdesc))
+            else:
+                bump(hist, "join:random-draws-skipped")
+        elif drew:
+            fs.append(Finding("correspondence", "join/draws", "the implementation drew %d random numbers, the model needs none (model %s)" % (drew, rep), cdesc))
+        else:
+            compare(floats_of(r[1]["y"]))
+            if mres == "success":
+                bump(hist, "join:%s:calls=%s" % (mode, r[1].get("calls")))
+        return fs
     if mres == "raises":
         bump(hist, "res:raises")
-        if "raises" in obs and obs["raises"] == "zerodiv":
+        if "raises" in obs and obs["raises"] in ("zerodiv", "overflow"):
             pass
         elif "y" in obs and any(not math.isfinite(v) for v in obs["y"]):
             bump(hist, "res:raises-vs-numpy-inf")          # numpy scalars divide by zero without raising
@@ -713,11 +844,7 @@ def check_case(case, obs, rep, info, hist):
             fs.append(Finding("correspondence", "chain/diverges", "model raises (zero division / index), implementation gave %r" %
                               (obs.get("y", obs.get("raises")),), cdesc))
     else:
-        my = floats_of(r[1]["y"])
-        if "y" not in obs:
-            fs.append(Finding("correspondence", "chain/diverges", "implementation raised %r, model gives %r" % (obs.get("raises"), my), cdesc))
-        elif not same_vec(my, obs["y"]):
-            fs.append(Finding("correspondence", "chain/diverges", "result model=%r impl=%r" % (my, obs["y"]), cdesc))
+        compare(floats_of(r[1]["y"]))
     return fs
 
 
@@ -732,12 +859,12 @@ def run_shard(pid, seed, shard, ncases, tier, extra):
             finalize_point(rng, case)
             obs = run_impl(case)
             bump(hist, "kind:" + case["kind"])
-            if "gen_raises" in obs or ("raises" in obs and obs["raises"] != "zerodiv"):
+            if "gen_raises" in obs or ("raises" in obs and obs["raises"] not in ("zerodiv", "overflow")):
                 findings.append(Finding("monitor", "solver/raises", "generate_solvers/constraint raised %s on %r" %
                                         (obs.get("gen_raises") or obs.get("raises"), obs["text"]), {"case": case, "impl": obs}))
                 continue
             line, info = build_request(case, obs)
-            mon = monitor(case, obs)
+            mon = monitor(case, obs, info if line else None)
         else:
             rng = case_rng(PID + "/bounds", seed, shard, k - ncases)
             case = gen_bounds(rng)
@@ -776,6 +903,19 @@ def run_shard(pid, seed, shard, ncases, tier, extra):
             bump(hist, "cmp:" + T.CMP_SYM[cmp])
         bump(hist, "nvars>=11" if case["n"] >= 11 else "nvars<11")
         bump(hist, "scheme:" + case["scheme"][0]); bump(hist, "regime:" + case["regime"])
+        bump(hist, "mode:" + info.get("mode", "default") + ":" + case["kind"])
+        if case.get("rich"):
+            bump(hist, "rich:" + case["rich"])
+            for op in ("pow", "abs", "max", "min", "sum", "mean", "spread") + tuple(T.FUNCS1):
+                if any(_uses(t, op) for (_, _, t) in case["rels"]):
+                    bump(hist, "fn:" + op)
+        if case.get("consts"):
+            bump(hist, "locals:shadowing" if any(k in ("e", "tau", "pi", "gamma", "euler_gamma", "inf") for k in case["consts"]) else "locals:names")
+        for key in ("y_reload", "y_threads"):
+            if key in obs:
+                bump(hist, "selfcontained:" + key[2:])
+        for f in (obs.get("fixed") or []):
+            bump(hist, "fixed:%s" % f)
         moved = "y" in obs and any(not num_eq(a, b) for a, b in zip(case["x"], obs["y"]))
         bump(hist, "moved" if moved else "unchanged")
         if moved:
